@@ -653,6 +653,8 @@ fn run_iter(src: &str) -> String {
             ad.push(format!("midlast:{}", dash(n.iter_identifiers_mut().last().map(|s| hex(s)))));
             ad.push(format!("midnth1:{}", dash(n.iter_read_variable_identifiers_mut().nth(1).map(|s| hex(s)))));
             let adapt = ad.join("|");
+            // context-free evaluation: an unknown identifier it reports must be one the iterators list
+            let free = result_text(&n.eval());
             let ops = j(n.iter_operators_mut().map(|o| op_text(o)).collect());
             let am = j(n.iter_identifiers_mut().map(|s| hex(s)).collect());
             let bm = j(n.iter_variable_identifiers_mut().map(|s| hex(s)).collect());
@@ -672,8 +674,8 @@ fn run_iter(src: &str) -> String {
                 s.insert(0, 'i');
             }
             format!(
-                "OK ids[{}] vars[{}] reads[{}] writes[{}] fns[{}] nodes[{}] ops[{}] idsm[{}] varsm[{}] readsm[{}] writesm[{}] fnsm[{}] via<{}> adapt<{}> renamed{}",
-                a, b, c, d, e, nodes, ops, am, bm, cm, dm, em, others, adapt, tree_text(&n)
+                "OK ids[{}] vars[{}] reads[{}] writes[{}] fns[{}] nodes[{}] ops[{}] idsm[{}] varsm[{}] readsm[{}] writesm[{}] fnsm[{}] via<{}> adapt<{}> free<{}> renamed{}",
+                a, b, c, d, e, nodes, ops, am, bm, cm, dm, em, others, adapt, free, tree_text(&n)
             )
         },
     }
